@@ -298,10 +298,27 @@ func (x *Exec) initGhosts(st *State, pkgPath string) {
 	for pp, gs := range x.e.cs.Ghosts {
 		_ = pp
 		for _, g := range gs {
-			t := ghostType(g.Type)
-			st.ghost[g.Name] = freshVal(x.c, "ghost0_"+g.Name, t)
+			t := x.e.ghostTypeIn(pp, g.Type)
+			gv := freshVal(x.c, "ghost0_"+g.Name, t)
+			x.wellFormed(gv, st)
+			st.ghost[g.Name] = gv
 		}
 	}
+}
+
+// ghostTypeIn resolves a ghost's type: a basic type name, or any Go type
+// expression in the scope of the declaring package (e.g. []*SwapStateMachine).
+func (e *Engine) ghostTypeIn(pkgPath, s string) types.Type {
+	switch s {
+	case "bool", "int", "int64", "uint64", "uint32", "string":
+		return ghostType(s)
+	}
+	if p := e.typesPkg(pkgPath); p != nil {
+		if tv, err := types.Eval(e.fset, p, token.NoPos, s); err == nil && tv.Type != nil {
+			return tv.Type
+		}
+	}
+	panic("unsupported ghost type " + s)
 }
 
 func ghostType(s string) types.Type {
